@@ -703,3 +703,202 @@ pub fn cflush(seed: u64, n: usize, out: &mut dyn Write) {
     }
     let _ = writeln!(out, "#stat cflush:scenarios {}", n);
 }
+
+// ---------------------------------------------------------------- user code that panics inside a call
+/// a span name whose conversion panics
+struct PanickyName;
+impl From<PanickyName> for std::borrow::Cow<'static, str> {
+    fn from(_: PanickyName) -> Self {
+        std::panic::resume_unwind(Box::new("name conversion panics"))
+    }
+}
+
+fn ctx_key(c: Option<SpanContext>) -> Option<(u128, u64, bool)> {
+    c.map(|c| (c.trace_id.0, c.span_id.0, c.sampled))
+}
+
+fn quiet_unwind<R>(f: impl FnOnce() -> R) -> Option<R> {
+    catch_unwind(AssertUnwindSafe(f)).ok()
+}
+
+/// User code that panics INSIDE a tracing call -- a property closure, the conversion of a span
+/// name -- with the panic caught by the caller.  Whatever was handed to the call by value is
+/// dropped by the unwinding, exactly as if the caller had dropped it there: the trace must
+/// still arrive whole (every span once, cancelable in one report call), later spans must hang
+/// under the right parents, and the thread's local context must be what it was.
+pub fn unwind(seed: u64, n: usize, out: &mut dyn Write) {
+    fastrace::verif::set_callback(None);
+    let mut r = Rng::new(seed);
+    for k in 0..n {
+        let cancelable = r.chance(1, 2);
+        let what = r.below(8);
+        let reports: Arc<Mutex<Vec<Vec<SpanRecord>>>> = Arc::new(Mutex::new(Vec::new()));
+        fastrace::verif::install(CapReporter(reports.clone()), Config::default().cancelable(cancelable));
+        let trace = ((seed as u128) << 64) | (0x9000 + k as u128);
+        let mut bad: Vec<String> = vec![];
+        let mut expected: Vec<String> = vec![];
+        let mut local_parent_of: Vec<(String, String)> = vec![];   // (span, expected parent span)
+        // the scenario itself runs under catch_unwind: a tracing call that panics AFTER the caught
+        // panic of the user code (a corrupted span stack tripping an assertion) is a verdict too
+        let scenario = catch_unwind(AssertUnwindSafe(|| {
+        let boom = || -> Vec<(String, String)> { std::panic::resume_unwind(Box::new("property closure panics")) };
+        let root = Span::root(format!("uw-root-{k}"), SpanContext::new(TraceId(trace), SpanId(1)));
+        expected.push(format!("uw-root-{k}"));
+        let root_ctx = SpanContext::from_span(&root);
+        match what {
+            0 => {
+                // Span::with_properties on a child: the child is dropped by the unwinding (finished)
+                let child = Span::enter_with_parent(format!("uw-child-{k}"), &root);
+                expected.push(format!("uw-child-{k}"));
+                let _ = quiet_unwind(move || child.with_properties(boom));
+            }
+            1 => {
+                // the same on the root itself: the trace ends there
+                let sib = Span::enter_with_parent(format!("uw-sib-{k}"), &root);
+                expected.push(format!("uw-sib-{k}"));
+                drop(sib);
+            }
+            2 | 3 => {
+                // LocalSpan::with_properties / with_property inside a scope, then more local spans
+                let _g = root.set_local_parent();
+                let before = ctx_key(SpanContext::current_local_parent());
+                let outer = LocalSpan::enter_with_local_parent(format!("uw-outer-{k}"));
+                expected.push(format!("uw-outer-{k}"));
+                let inner = LocalSpan::enter_with_local_parent(format!("uw-inner-{k}"));
+                expected.push(format!("uw-inner-{k}"));
+                local_parent_of.push((format!("uw-inner-{k}"), format!("uw-outer-{k}")));
+                if what == 2 {
+                    let _ = quiet_unwind(move || inner.with_properties(boom));
+                } else {
+                    let _ = quiet_unwind(move || inner.with_property(|| -> (String, String) { std::panic::resume_unwind(Box::new("p")) }));
+                }
+                {
+                    let _after = LocalSpan::enter_with_local_parent(format!("uw-after-{k}"));
+                    expected.push(format!("uw-after-{k}"));
+                    local_parent_of.push((format!("uw-after-{k}"), format!("uw-outer-{k}")));
+                }
+                drop(outer);
+                {
+                    let _last = LocalSpan::enter_with_local_parent(format!("uw-last-{k}"));
+                    expected.push(format!("uw-last-{k}"));
+                    local_parent_of.push((format!("uw-last-{k}"), format!("uw-root-{k}")));
+                }
+                if ctx_key(SpanContext::current_local_parent()) != before {
+                    bad.push("the local context is not restored after the spans of the scope were closed".to_string());
+                }
+            }
+            4 => {
+                // the name of a local span panics while it is converted
+                let _g = root.set_local_parent();
+                let outer = LocalSpan::enter_with_local_parent(format!("uw-outer-{k}"));
+                expected.push(format!("uw-outer-{k}"));
+                let before = ctx_key(SpanContext::current_local_parent());
+                let _ = quiet_unwind(|| LocalSpan::enter_with_local_parent(PanickyName));
+                if ctx_key(SpanContext::current_local_parent()) != before {
+                    bad.push("a local span whose name conversion panicked changed the local context".to_string());
+                }
+                {
+                    let _after = LocalSpan::enter_with_local_parent(format!("uw-after-{k}"));
+                    expected.push(format!("uw-after-{k}"));
+                    local_parent_of.push((format!("uw-after-{k}"), format!("uw-outer-{k}")));
+                }
+                drop(outer);
+            }
+            5 => {
+                // the name of a span / an event panics
+                let _g = root.set_local_parent();
+                let before = ctx_key(SpanContext::current_local_parent());
+                let _ = quiet_unwind(|| Span::enter_with_local_parent(PanickyName));
+                let _ = quiet_unwind(|| Span::enter_with_parent(PanickyName, &root));
+                let _ = quiet_unwind(|| LocalSpan::add_event(Event::new(PanickyName)));
+                if ctx_key(SpanContext::current_local_parent()) != before {
+                    bad.push("a span whose name conversion panicked changed the local context".to_string());
+                }
+                let c = Span::enter_with_local_parent(format!("uw-child-{k}"));
+                expected.push(format!("uw-child-{k}"));
+                drop(c);
+            }
+            6 => {
+                // closures of the attach-style entry points
+                let _g = root.set_local_parent();
+                let l = LocalSpan::enter_with_local_parent(format!("uw-outer-{k}"));
+                expected.push(format!("uw-outer-{k}"));
+                let _ = quiet_unwind(|| LocalSpan::add_properties(boom));
+                let _ = quiet_unwind(|| root.add_properties(boom));
+                let _ = quiet_unwind(|| LocalSpan::add_event(Event::new("uw-ev").with_properties(boom)));
+                {
+                    let _after = LocalSpan::enter_with_local_parent(format!("uw-after-{k}"));
+                    expected.push(format!("uw-after-{k}"));
+                    local_parent_of.push((format!("uw-after-{k}"), format!("uw-outer-{k}")));
+                }
+                drop(l);
+            }
+            _ => {
+                // a panic that unwinds through a guard and local spans, caught outside
+                let before = ctx_key(SpanContext::current_local_parent());
+                let rref = &root;
+                let _ = quiet_unwind(|| {
+                    let _g = rref.set_local_parent();
+                    let _l = LocalSpan::enter_with_local_parent(format!("uw-outer-{k}"));
+                    let _m = LocalSpan::enter_with_local_parent(format!("uw-inner-{k}"));
+                    std::panic::resume_unwind(Box::new("body panics"));
+                });
+                expected.push(format!("uw-outer-{k}"));
+                expected.push(format!("uw-inner-{k}"));
+                local_parent_of.push((format!("uw-inner-{k}"), format!("uw-outer-{k}")));
+                if ctx_key(SpanContext::current_local_parent()) != before {
+                    bad.push("the local context is not restored after a panic unwound through the scope".to_string());
+                }
+            }
+        }
+        if what == 1 {
+            let _ = quiet_unwind(move || root.with_properties(boom));
+        } else {
+            drop(root);
+        }
+        let _ = root_ctx;
+        }));
+        if scenario.is_err() {
+            bad.push("a tracing call made after the caught panic panicked itself".to_string());
+        }
+        fastrace::verif::run_collector_cycle();
+        fastrace::verif::run_collector_cycle();
+        let batches: Vec<Vec<SpanRecord>> = reports.lock().unwrap().drain(..).collect();
+        let all: Vec<&SpanRecord> = batches.iter().flat_map(|b| b.iter()).collect();
+        for name in &expected {
+            let cnt = all.iter().filter(|x| x.name == *name).count();
+            if cnt != 1 {
+                bad.push(format!("{name} delivered {cnt} times"));
+            }
+        }
+        let extra: Vec<String> = all.iter().filter(|x| x.trace_id.0 == trace && !expected.iter().any(|e| x.name == *e)).map(|x| x.name.to_string()).collect();
+        if !extra.is_empty() {
+            bad.push(format!("unexpected records {:?}", extra));
+        }
+        for (child, parent) in &local_parent_of {
+            let c = all.iter().find(|x| x.name == *child);
+            let p = all.iter().find(|x| x.name == *parent);
+            if let (Some(c), Some(p)) = (c, p) {
+                if c.parent_id != p.span_id {
+                    bad.push(format!("{child} hangs under {:x}, not under {parent}", c.parent_id.0));
+                }
+            }
+        }
+        if all.iter().any(|x| x.trace_id.0 == trace && (!x.properties.is_empty())) {
+            bad.push("a property of a closure that panicked was recorded".to_string());
+        }
+        if cancelable {
+            let calls = batches.iter().filter(|b| b.iter().any(|x| x.trace_id.0 == trace)).count();
+            if calls > 1 {
+                bad.push(format!("cancelable trace delivered in {calls} report calls"));
+            }
+        }
+        let st = fastrace::verif::collector_stats();
+        if !st.active.is_empty() && bad.is_empty() {
+            bad.push(format!("{} traces retained after everything finished", st.active.len()));
+        }
+        let verdict = if bad.is_empty() { "as-if-dropped".to_string() } else { format!("VIOLATION {}", bad.join("; ")) };
+        let _ = writeln!(out, "W scenario={} cancelable={} what={} => {}", k, cancelable, what, verdict);
+    }
+    let _ = writeln!(out, "#stat unwind:scenarios {}", n);
+}
